@@ -69,6 +69,14 @@ _add("for3", "for [a, b, c] in x do a end", 1)
 _add("for dup", "for [a, a] in x do a end", 1)
 _add("def destr dup", "do def [a, a] = x; a end", 1)
 _add("assign destr dup", "do def a = 0; [a, a] = x; a end", 1)
+_add("mutate in for", "do def v = x; for k in v do v[string(k) + 'x'] = 1; "
+     "end; 1 end", 1)
+_add("mutate in for keys", "do def v = x; for k in keys v do "
+     "v[string(k) + 'x'] = 1; end; 1 end", 1)
+_add("remove in for", "do def v = x; for k in v do remove(v, k); end; 1 end",
+     1)
+_add("mutate in comprehension", "do def v = x; [put(v, [k], 1) for k in v] "
+     "end", 1)
 _add("self append", "do def v = x; append(v, v); v end", 1)
 _add("self add", "do def v = x; v + v end", 1)
 _add("self eq", "do def v = x; v == v and v <= v end", 1)
